@@ -17,3 +17,13 @@ pub trait Write {
             Err(_) => final(self).out() == old(self).out(),
         };
 }
+/// std: `impl<W: io::Write + ?Sized> io::Write for &mut W` forwards to the referent (and keeps referring to the same writer)
+impl<'a, W: Write> Write for &'a mut W {
+    open spec fn out(&self) -> Seq<u8> { (**self).out() }
+    fn write_all(&mut self, v: &[u8]) -> (r: io::Result<()>)
+        ensures *final(*final(self)) == *final(*old(self))
+    { (**self).write_all(v) }
+    fn write(&mut self, v: &[u8]) -> (r: io::Result<usize>)
+        ensures *final(*final(self)) == *final(*old(self))
+    { (**self).write(v) }
+}
